@@ -27,6 +27,27 @@ pub struct IggyTimestamp(SystemTime);
 
 pub const UTC_TIME_FORMAT: &str = "%Y-%m-%d %H:%M:%S";
 
+/// Verification hook (only with `--cfg iggy_verif`): a process-global offset added to the wall clock.
+#[cfg(iggy_verif)]
+pub mod verif_clock {
+    use std::sync::atomic::{AtomicU64, Ordering};
+    use std::time::{Duration, SystemTime};
+
+    static OFFSET_MICROS: AtomicU64 = AtomicU64::new(0);
+
+    pub fn set_offset_micros(offset: u64) {
+        OFFSET_MICROS.store(offset, Ordering::SeqCst);
+    }
+
+    pub fn offset_micros() -> u64 {
+        OFFSET_MICROS.load(Ordering::SeqCst)
+    }
+
+    pub fn now() -> SystemTime {
+        SystemTime::now() + Duration::from_micros(offset_micros())
+    }
+}
+
 impl IggyTimestamp {
     pub fn now() -> Self {
         IggyTimestamp::default()
@@ -81,6 +102,10 @@ impl Add<SystemTime> for IggyTimestamp {
 
 impl Default for IggyTimestamp {
     fn default() -> Self {
+        #[cfg(iggy_verif)]
+        if true {
+            return Self(verif_clock::now());
+        }
         Self(SystemTime::now())
     }
 }
